@@ -207,8 +207,8 @@ PROPS["C14"] = {
             "non-trivial = at least one handler returned an error or was addressed to an unknown id (side plugins: an interpreted annotation key was present); distinct = hash of the case",
     "assumptions": [FIXTURE, "log.Fatal / os.Exit inside a handler would end the test process and is reported as inconclusive (exit 2), not as a violation"],
     "units": [
-        {"name": "hostile-ta", "pkg": RESMGR, "run": "^TestVerifC14TA$", "replay_run": "^TestVerifC14Replay$", "q": 300, "t": 60000, "per_proc": 600},
-        {"name": "hostile-balloons", "pkg": RESMGR, "run": "^TestVerifC14Balloons$", "replay_run": "^TestVerifC14Replay$", "q": 300, "t": 60000, "per_proc": 600},
+        {"name": "hostile-ta", "pkg": RESMGR, "run": "^TestVerifC14TA$", "replay_run": "^TestVerifC14Replay$", "q": 500, "t": 60000, "per_proc": 600},
+        {"name": "hostile-balloons", "pkg": RESMGR, "run": "^TestVerifC14Balloons$", "replay_run": "^TestVerifC14Replay$", "q": 600, "t": 60000, "per_proc": 600},
         {"name": "memory-qos", "pkg": "./cmd/plugins/memory-qos", "run": "^TestVerifSideMemoryQos$", "replay_run": "^TestVerifSideMemoryQosReplay$", "q": 1500, "t": 160000},
         {"name": "memtierd", "pkg": "./cmd/plugins/memtierd", "run": "^TestVerifSideMemtierd$", "replay_run": "^TestVerifSideMemtierdReplay$", "q": 1500, "t": 160000},
         {"name": "sgx-epc", "pkg": "./cmd/plugins/sgx-epc", "run": "^TestVerifSideSgxEpc$", "replay_run": "^TestVerifSideSgxEpcReplay$", "q": 1500, "t": 160000},
